@@ -290,10 +290,11 @@ def gen_ctor(g, k):
     c = ["ctor 0", "ctor 18"]
     for n in range(41):                                   # strings of every length, every shape
         for s in g.string_variants(n):
-            i = g.r.choice([1, 2])
-            c.append("ctor %d %s" % (i, hx(s)))
+            # every shape through all three string constructors (a choice between them made the empty boot-loader name
+            # a matter of the seed)
+            c.append("ctor 1 %s" % hx(s))
+            c.append("ctor 2 %s" % hx(s))
             c.append("ctor 3 %s" % tok([1, 2, hx(s)]))
-        c.append("ctor %d %s" % (3 - g.r.choice([1, 2]), hx(g.ascii(n))))
     for a, b in [(0, 0), (0, 1), (1, 0), (1, 1), (0xFFFFFFFF, 0xFFFFFFFF), (0xFFFFFFFE, 0xFFFFFFFF), (0xFFFFFFFF, 0),
                  (0, 0xFFFFFFFF), (0x80000000, 0x7FFFFFFF), (0x7FFFFFFF, 0x80000000)]:
         c.append("ctor 3 %s" % tok([a, b, hx(g.string())]))
